@@ -112,6 +112,52 @@ func (m *RWMutex) RLock() { m.mu.Lock() }
 // RUnlock releases it.
 func (m *RWMutex) RUnlock() { m.mu.Unlock() }
 
+// TryLock tries to take the write lock.
+func (m *RWMutex) TryLock() bool { return m.mu.TryLock() }
+
+// TryRLock tries to take the read lock.
+func (m *RWMutex) TryRLock() bool { return m.mu.TryLock() }
+
+// RLocker returns a Locker for the read side.
+func (m *RWMutex) RLocker() interface {
+	Lock()
+	Unlock()
+} {
+	return &m.mu
+}
+
+// Swap, CompareAndSwap, CompareAndDelete of sync.Map (Go 1.20).
+func (m *Map) Swap(key, value interface{}) (prev interface{}, loaded bool) {
+	m.step(func() {
+		prev, loaded = m.m[key]
+		if !loaded {
+			m.keys = append(m.keys, key)
+		}
+		m.m[key] = value
+	})
+	return
+}
+
+func (m *Map) CompareAndSwap(key, old, new interface{}) (ok bool) {
+	m.step(func() {
+		if v, has := m.m[key]; has && v == old {
+			m.m[key] = new
+			ok = true
+		}
+	})
+	return
+}
+
+func (m *Map) CompareAndDelete(key, old interface{}) (ok bool) {
+	m.step(func() {
+		if v, has := m.m[key]; has && v == old {
+			delete(m.m, key)
+			ok = true
+		}
+	})
+	return
+}
+
 // WaitGroup is the virtual sync.WaitGroup.
 type WaitGroup struct {
 	epoch   uint64
@@ -262,5 +308,152 @@ func AtomicOp(ptr interface{}, f func() uint64) {
 			g.Hist = mix(mix(g.Hist, v), w.words[ptr])
 			w.words[ptr] = mix(w.words[ptr], mix(v, 0xa7))
 		}
+	})
+}
+
+// Map is the virtual sync.Map: every operation is one visible atomic step.
+// The zero value is usable; it is emptied at the start of every execution.
+type Map struct {
+	epoch uint64
+	m     map[interface{}]interface{}
+	keys  []interface{} // insertion order, for a deterministic Range
+}
+
+func (m *Map) init() {
+	ep := uint64(0)
+	if W != nil {
+		ep = W.Epoch
+	}
+	if m.m == nil || m.epoch != ep {
+		m.epoch = ep
+		m.m = map[interface{}]interface{}{}
+		m.keys = nil
+	}
+}
+
+func (m *Map) step(f func()) {
+	m.init()
+	if W == nil {
+		f()
+		return
+	}
+	AtomicOp(m, func() uint64 { f(); return uint64(len(m.m)) })
+}
+
+// Load returns the value stored for a key.
+func (m *Map) Load(key interface{}) (v interface{}, ok bool) {
+	m.step(func() { v, ok = m.m[key] })
+	return
+}
+
+// Store sets the value for a key.
+func (m *Map) Store(key, value interface{}) {
+	m.step(func() {
+		if _, ok := m.m[key]; !ok {
+			m.keys = append(m.keys, key)
+		}
+		m.m[key] = value
+	})
+}
+
+// LoadOrStore returns the existing value or stores the given one.
+func (m *Map) LoadOrStore(key, value interface{}) (actual interface{}, loaded bool) {
+	m.step(func() {
+		if v, ok := m.m[key]; ok {
+			actual, loaded = v, true
+			return
+		}
+		m.keys = append(m.keys, key)
+		m.m[key] = value
+		actual = value
+	})
+	return
+}
+
+// LoadAndDelete deletes the value for a key, returning the previous value.
+func (m *Map) LoadAndDelete(key interface{}) (v interface{}, loaded bool) {
+	m.step(func() {
+		v, loaded = m.m[key]
+		delete(m.m, key)
+	})
+	return
+}
+
+// Delete deletes the value for a key.
+func (m *Map) Delete(key interface{}) { m.LoadAndDelete(key) }
+
+// Range calls f for each key in insertion order.
+func (m *Map) Range(f func(key, value interface{}) bool) {
+	var ks []interface{}
+	m.step(func() { ks = append(ks, m.keys...) })
+	for _, k := range ks {
+		v, ok := m.Load(k)
+		if !ok {
+			continue
+		}
+		if !f(k, v) {
+			return
+		}
+	}
+}
+
+// Cond is the virtual sync.Cond.
+type Cond struct {
+	L interface {
+		Lock()
+		Unlock()
+	}
+	epoch   uint64
+	waiters []*G
+}
+
+// NewCond returns a new Cond.
+func NewCond(l interface {
+	Lock()
+	Unlock()
+}) *Cond {
+	return &Cond{L: l}
+}
+
+type condWaitOp struct{ c *Cond }
+
+func (o *condWaitOp) attempt(w *World, g *G, alt int) bool {
+	o.c.waiters = append(o.c.waiters, g)
+	return false
+}
+func (o *condWaitOp) readyCases(w *World) []int { return nil }
+func (o *condWaitOp) info() OpInfo              { return OpInfo{Kind: "condwait", Obj: "cond"} }
+
+// Wait unlocks c.L, waits for a signal and locks c.L again.
+func (c *Cond) Wait() {
+	if W == nil {
+		return
+	}
+	if c.epoch != W.Epoch {
+		c.epoch = W.Epoch
+		c.waiters = nil
+	}
+	c.L.Unlock()
+	W.yield(&condWaitOp{c: c})
+	c.L.Lock()
+}
+
+// Signal wakes one waiter.
+func (c *Cond) Signal() {
+	Visible("condsignal", "cond", "", func() {
+		if len(c.waiters) > 0 {
+			W.makeReady(c.waiters[0])
+			c.waiters = c.waiters[1:]
+		}
+	})
+}
+
+// Broadcast wakes all waiters.
+func (c *Cond) Broadcast() {
+	Visible("condbroadcast", "cond", "", func() {
+		for _, g := range c.waiters {
+			W.makeReady(g)
+		}
+		c.waiters = nil
 	})
 }
